@@ -70,6 +70,13 @@ pub enum Case {
         max: usize,
         msgs: Vec<String>,
     },
+    /// (harness built with its feature `watcher`) this many loggers with a specification file are
+    /// built and kept alive at the same time: each one starts a file watcher, and the watchers of
+    /// one user are a limited resource (128 inotify instances) - running out of them is a problem
+    /// to be reported as an error result, not a panic
+    ManyWatchers {
+        n: usize,
+    },
 }
 
 pub struct P;
@@ -352,6 +359,13 @@ impl Property for P {
             Tier::Thorough => 1_500_000,
         }
     }
+    fn fixed_cases(_tier: Tier) -> Vec<Case> {
+        if cfg!(feature = "watcher") {
+            vec![Case::ManyWatchers { n: 150 }]
+        } else {
+            Vec::new()
+        }
+    }
     fn strategy(_tier: Tier) -> BoxedStrategy<Case> {
         prop_oneof![
             3 => (any::<bool>(), any::<bool>(), prop::collection::vec(hrec(), 1..12)).prop_map(|(with_writers, to_stdout_devnull, recs)| Case::Targets { with_writers, to_stdout_devnull, recs }),
@@ -458,6 +472,30 @@ impl Property for P {
                     }
                 }
                 handle.shutdown();
+            }
+            Case::ManyWatchers { n } => {
+                out.class("many-specfile-watchers");
+                let sc = Scratch::new("c10w");
+                let mut alive = Vec::new();
+                let mut errors = 0;
+                for i in 0..*n {
+                    match Logger::with(LogSpecification::info())
+                        .do_not_log()
+                        .error_channel(ErrorChannel::DevNull)
+                        .panic_if_error_channel_is_broken(false)
+                        .build_with_specfile(sc.sub(&format!("s{i}/logspec.toml")))
+                    {
+                        Ok(x) => alive.push(x),
+                        Err(_) => errors += 1,
+                    }
+                }
+                if errors > 0 {
+                    out.class("watcher-creation-refused-with-an-error-result");
+                    out.nontrivial = true;
+                }
+                drop(alive);
+                // let the event loops of the watchers close their inotify instances
+                std::thread::sleep(std::time::Duration::from_millis(300));
             }
             Case::Files { cfg, t0, pre, ops, .. } => {
                 out.class("files");
